@@ -258,7 +258,23 @@ func (ctx *fromJSONSchemaContext) convertMultiType(s *lib.Schema) (core.ZodSchem
 		return schemas[0], nil
 	}
 
-	return types.Union(zodSchemasToAny(schemas)), nil
+	return unionOf(schemas), nil
+}
+
+// admitsNil reports whether a converted schema accepts JSON null.
+func admitsNil(schema core.ZodSchema) bool {
+	_, err := schema.ParseAny(nil)
+	return err == nil
+}
+
+// unionOf is the union of the members. A Union decides a nil input before its
+// members are asked, so it is made Nilable when a member admits null.
+func unionOf(members []core.ZodSchema) core.ZodSchema {
+	union := types.Union(zodSchemasToAny(members))
+	if slices.ContainsFunc(members, admitsNil) {
+		return union.Nilable()
+	}
+	return union
 }
 
 // convertString converts a string type schema.
@@ -579,11 +595,11 @@ func (ctx *fromJSONSchemaContext) convertEnum(s *lib.Schema) (core.ZodSchema, er
 	}
 
 	// Mixed types - use union of literals
-	literals := make([]any, len(s.Enum))
+	literals := make([]core.ZodSchema, len(s.Enum))
 	for i, v := range s.Enum {
 		literals[i] = literalSchema(v)
 	}
-	return types.Union(literals), nil
+	return unionOf(literals), nil
 }
 
 // convertAllOf converts allOf (intersection).
@@ -622,7 +638,7 @@ func (ctx *fromJSONSchemaContext) convertAnyOf(s *lib.Schema) (core.ZodSchema, e
 		return schemas[0], nil
 	}
 
-	return types.Union(zodSchemasToAny(schemas)), nil
+	return unionOf(schemas), nil
 }
 
 // convertOneOf converts oneOf (exclusive union).
@@ -640,7 +656,19 @@ func (ctx *fromJSONSchemaContext) convertOneOf(s *lib.Schema) (core.ZodSchema, e
 		return schemas[0], nil
 	}
 
-	return types.Xor(zodSchemasToAny(schemas)), nil
+	xor := types.Xor(zodSchemasToAny(schemas))
+	// An Xor decides a nil input before its members are asked: null is valid
+	// when exactly one member admits it.
+	nilMembers := 0
+	for _, member := range schemas {
+		if admitsNil(member) {
+			nilMembers++
+		}
+	}
+	if nilMembers == 1 {
+		return xor.Nilable(), nil
+	}
+	return xor, nil
 }
 
 // convertSchemaList converts a slice of JSON Schemas to GoZod schemas.
